@@ -139,7 +139,8 @@ struct World {
 	// monitors reporting (nothing else is known about such a copy)
 	void (*snapshotHook)(Inst&, Method) = nullptr;
 	bool snapPending = false;
-	bool muteExceptC05 = false;
+	bool inSnapshotCopy = false;                 // the copy constructor of a snapshot is running (it must not call back)
+	const char* const* muteAllow = nullptr;      // while set: only violations of the listed properties are reported
 
 	// ---- statistics (whole process)
 	vh::Stats stats;
@@ -147,7 +148,11 @@ struct World {
 
 	// ------------------------------------------------------------------
 	void V(const char* prop, const std::string& key, const std::string& msg) {
-		if (muteExceptC05 && strcmp(prop, "C05") != 0) return;
+		if (muteAllow) {
+			bool allowed = false;
+			for (const char* const* p = muteAllow; *p; ++p) if (strcmp(*p, prop) == 0) allowed = true;
+			if (!allowed) return;
+		}
 		if (cfg::BARE && strcmp(prop, "C16") != 0) {
 			// configurations with states that define no callback see those states only through the verbose
 			// log: an inconsistency there says the record stream and the machine disagree (C16)
@@ -1007,6 +1012,9 @@ inline void World::apiEnd(Inst& in) {
 		if (!ok)
 			V("C12", fmt("load-trace|saver=%s|loader=%s", a < 0 ? "inactive" : "active", b < 0 ? "inactive" : (a == b ? "same" : "other")),
 			  fmt("load(): saver activity %d, loader was %d, but the loader ran %s rootEnters=%u rootExits=%u; %s", a, b, applied().c_str(), s.rootEnters, s.rootExits, tail().c_str()));
+		// C14: only the addressed states' callbacks run (the one left and the one loaded)
+		if ((s.exits && s.exitSid != b) || (s.enters && s.enterSid != a) || (s.reenters && s.reenterSid != a))
+			V("C14", "callbacks-of-a-state-that-was-not-addressed|load", fmt("load(): saver activity %d, loader was %d, but the loader ran %s; %s", a, b, applied().c_str(), tail().c_str()));
 		if (in.cur != a) V("C12", "load-result-activity", fmt("after load() the loader's entered state is %d, the saver's activity was %d; %s", in.cur, a, tail().c_str()));
 		if (a >= 0 && b >= 0) { in.latest = Req{}; in.plan.clear(); in.clearStatuses(true); in.tasksAdded = false; in.prevExpected = Req{}; in.prevLenientEmptyOk = false; }
 		else if (a < 0 && b >= 0) deactivated(in);
